@@ -33,7 +33,10 @@ class State:
         self.mem = {}; self.frames = []; self.uid = 0; self.steps = 0; self.backedges = 0; self.trace = ()
 
     def fork(self):
-        s = State(); s.mem = dict(self.mem); s.frames = [dict(f) for f in self.frames]; s.uid = self.uid
+        s = State(); s.mem = dict(self.mem); s.uid = self.uid
+        s.frames = []
+        for f in self.frames:
+            f2 = dict(f); f2['loc'] = dict(f['loc']); s.frames.append(f2)
         s.steps = self.steps; s.backedges = self.backedges; s.trace = self.trace
         return s
 
@@ -55,6 +58,7 @@ class Engine:
         self.solver.set('timeout', timeout_ms)
         self.timeout_ms = timeout_ms; self.branch_timeout_ms = min(timeout_ms, 5000); self.assumed_feasible = 0
         self.deadline = None; self.max_paths = None
+        self.lazy = False; self.base_solver_assertions = []
         self.abstract_fdiv = False        # treat f64 division of two symbolic operands as an uninterpreted function (over-approximation)
         if seed: self.solver.set('random_seed', seed % (1 << 30))
         self.pc = []
@@ -76,7 +80,22 @@ class Engine:
         conds = [c for c in conds if c is not True]
         if any(c is False for c in conds): return z3.unsat
         t = time.time()
-        r = self.solver.check(*conds)
+        if self.deadline and t > self.deadline: raise Unsupported('wall-clock budget of this obligation exceeded')
+        if self.lazy:
+            base = self.base_solver_assertions
+            self.solver = z3.Solver(); self.solver.set('timeout', getattr(self, '_cur_timeout_ms', self.timeout_ms))
+            for c in self.path_condition(): self.solver.add(c)
+        # z3's own timeout is only polled at certain points of the FP / UF procedures: a timer interrupts the context as a backstop
+        import threading
+        budget_s = getattr(self, '_cur_timeout_ms', self.timeout_ms) / 1000.0 + 3.0
+        timer = threading.Timer(budget_s, self.solver.ctx.interrupt)
+        timer.daemon = True; timer.start()
+        try:
+            r = self.solver.check(*conds)
+        except z3.Z3Exception:
+            r = z3.unknown
+        finally:
+            timer.cancel()
         self.stats.solver_s += time.time() - t
         self.stats.queries[str(r)] += 1
         if r == z3.unknown: self.unknowns.append(str(conds)[:200])
@@ -86,11 +105,11 @@ class Engine:
         if cond is True: return True
         if cond is False: return False
         if self.no_feasibility: return True
-        self.solver.set('timeout', self.branch_timeout_ms)
+        self.solver.set('timeout', self.branch_timeout_ms); self._cur_timeout_ms = self.branch_timeout_ms
         try:
             r = self.check(cond)
         finally:
-            self.solver.set('timeout', self.timeout_ms)
+            self.solver.set('timeout', self.timeout_ms); self._cur_timeout_ms = self.timeout_ms
         if r == z3.unknown:
             # undecided within the branch budget: keep the branch (over-approximation: sound for "holds on every path";
             # any counterexample found below it must still pass the concrete replay)
@@ -100,14 +119,19 @@ class Engine:
 
     def assume(self, cond):
         if cond is True: return
-        self.solver.add(cond); self.pc.append(cond)
+        if not self.lazy: self.solver.add(cond)
+        self.pc.append(cond)
 
     def push(self, cond=True):
-        self.solver.push(); self.pc.append(MARK)
-        if cond is not True: self.solver.add(cond); self.pc.append(cond)
+        # lazy mode (syntactic exploration): the path condition is only kept as a list; a solver is built when a query is really asked
+        if not self.lazy: self.solver.push()
+        self.pc.append(MARK)
+        if cond is not True:
+            if not self.lazy: self.solver.add(cond)
+            self.pc.append(cond)
 
     def pop(self):
-        self.solver.pop()
+        if not self.lazy: self.solver.pop()
         while self.pc.pop() is not MARK: pass
 
     def path_condition(self):
@@ -208,23 +232,43 @@ class Engine:
             return (key, path + (('i', idx),))
         raise Unsupported('place ' + k)
 
+    # memory cells: heap cells (key = (uid, 'h')) live in st.mem; locals (key = (frame uid, index)) live in their frame and die with it
+    def cells(self, st, key, fr=None):
+        if key[1] == 'h': return st.mem
+        if fr is not None and fr['uid'] == key[0]: return fr['loc']
+        for f in reversed(st.frames):
+            if f['uid'] == key[0]: return f['loc']
+        raise Unsupported('reference to a local of a frame that has returned')
+
+    def cell_get(self, st, key, fr=None):
+        d = self.cells(st, key, fr)
+        k = key if key[1] == 'h' else key[1]
+        if k not in d: raise Unsupported('read of unset local %s' % (key,))
+        return d[k]
+
+    def cell_set(self, st, key, val, fr=None):
+        d = self.cells(st, key, fr)
+        d[key if key[1] == 'h' else key[1]] = val
+
     def load(self, st, fr, place):
         key, path = self.resolve(st, fr, place)
-        if key not in st.mem: raise Unsupported('read of unset local %s in %s' % (key, fr['fn'].name))
-        return self.read_path(st, st.mem[key], path)
+        return self.read_path(st, self.cell_get(st, key, fr), path)
 
     def store(self, st, fr, place, val):
         key, path = self.resolve(st, fr, place)
-        st.mem[key] = self.write_path(st.mem.get(key), path, val) if path else val
+        if path:
+            d = self.cells(st, key, fr); k = key if key[1] == 'h' else key[1]
+            d[k] = self.write_path(d.get(k), path, val)
+        else: self.cell_set(st, key, val, fr)
 
     def rd(self, st, ref):
         """read through a reference value"""
         if ref[0] in ('box', 'unique'): return st.mem[ref[1]]
         if ref[0] != 'ref': return ref          # by-value stand-in (strings)
-        return self.read_path(st, st.mem[ref[1]], ref[2])
+        return self.read_path(st, self.cell_get(st, ref[1]), ref[2])
 
     def wr(self, st, ref, val):
-        st.mem[ref[1]] = self.write_path(st.mem[ref[1]], ref[2], val) if ref[2] else val
+        self.cell_set(st, ref[1], self.write_path(self.cell_get(st, ref[1]), ref[2], val) if ref[2] else val)
 
     def temp_ref(self, st, value):
         return ('ref', st.alloc(value), ())
@@ -268,13 +312,27 @@ class Engine:
 
     def eval_promoted(self, st, body):
         """promoted constants are straight-line: statements plus calls to pure library constructors"""
-        st.uid += 1; pfr = {'uid': st.uid, 'fn': body, 'bb': 'bb0'}
+        st.uid += 1; pfr = {'uid': st.uid, 'fn': body, 'bb': 'bb0', 'loc': {}}
         bb = 'bb0'
         for _ in range(64):
             blk = body.blocks[bb]
             for s_ in blk.stmts: self.store(st, pfr, s_[1], self.rvalue(st, pfr, s_[2], s_[1]))
             t = blk.term
-            if t[0] == 'return': return st.mem[(pfr['uid'], 0)]
+            if t[0] == 'return':
+                # a promoted constant is a reference to its own temporaries: move them to the heap so that they outlive this pseudo frame
+                moved = {}
+                def migrate(v):
+                    if isinstance(v, tuple) and v:
+                        if v[0] == 'ref' and v[1][0] == pfr['uid'] and v[1][1] != 'h':
+                            idx = v[1][1]
+                            if idx not in moved:
+                                moved[idx] = st.alloc(None)
+                                st.mem[moved[idx]] = migrate(pfr['loc'][idx])
+                            return ('ref', moved[idx], v[2])
+                        if v[0] in ('adt',): return ('adt', v[1], v[2], tuple(migrate(x) for x in v[3]))
+                        if v[0] in ('tuple', 'array', 'vec'): return (v[0], tuple(migrate(x) for x in v[1]))
+                    return v
+                return migrate(pfr['loc'][0])
             if t[0] == 'goto': bb = t[1]; continue
             if t[0] == 'call':
                 argv = [self.operand(st, pfr, a) for a in t[3]]
@@ -426,8 +484,7 @@ class Engine:
     def call_fn(self, st, fname, args, cont=None, ret=None):
         f = self.prog.fns[fname][0]
         st.uid += 1
-        fr = {'uid': st.uid, 'fn': f, 'bb': 'bb0', 'cont': cont, 'ret': ret}
-        for i, a in enumerate(args): st.mem[(fr['uid'], i + 1)] = a
+        fr = {'uid': st.uid, 'fn': f, 'bb': 'bb0', 'cont': cont, 'ret': ret, 'loc': {i + 1: a for i, a in enumerate(args)}}
         st.frames.append(fr)
         st.steps += 1
         self.stats.fns[fname] += 1
@@ -497,7 +554,7 @@ class Engine:
             if k == 'goto':
                 self.jump(st, fr, t[1])
             elif k == 'return':
-                ret = st.mem.get((fr['uid'], 0), UNIT); st.frames.pop()
+                ret = fr['loc'].get(0, UNIT); st.frames.pop()
                 if fr.get('cont') is not None:
                     r = fr['cont'](st, ret)
                     if r is False: return
@@ -508,7 +565,9 @@ class Engine:
                 else:
                     self.finish(st, 'ret', value=ret); return
             elif k == 'drop': self.jump(st, fr, t[2]['return'])
-            elif k == 'unreachable': raise Unsupported('reached `unreachable` in ' + fr['fn'].name + ' ' + fr['bb'])
+            elif k == 'unreachable':
+                if self.no_feasibility: return          # syntactic exploration: this branch is infeasible by the compiler's own knowledge
+                raise Unsupported('reached `unreachable` in ' + fr['fn'].name + ' ' + fr['bb'])
             elif k == 'assert':
                 cond = self.operand(st, fr, t[1]); expected = t[2]
                 okc = as_bool(cond) if expected else b_not(as_bool(cond))
@@ -702,8 +761,10 @@ class Engine:
         sub.on_path = lambda p: results.append((b_and(*p.pc[base:]), p))
         sub.no_feasibility = True
         base = len(self.path_condition())
-        s2 = st.fork(); s2.frames = []
-        sub.call_fn(s2, target, argv)
+        s2 = st.fork()
+        def done(s3, ret):
+            sub.finish(s3, 'ret', value=ret); return False
+        sub.call_fn(s2, target, argv, cont=done)
         sub.run(s2)
         vals = []
         for cond, p in results:
